@@ -1,5 +1,6 @@
 """C01 - matching is one-to-one and accounts for every estimate."""
 from mc.props import _matcher as M
+from mc.ref import geom
 
 ID = "C01"
 RULE = ("every case of three finite families is executed on get_object_results: (A) centre-distance score tables "
@@ -77,6 +78,14 @@ def check_case(case, acc):
                 acc.skip("boundary:radius")
             elif not d < r:
                 bad("radius", "paired objects are %.6f apart, radius for the ground truth's label is %s" % (d, r))
+        if r is not None and case["mode"] == "PLANEDISTANCE" and case["dim"] == 3:
+            # independent of the library's own score: plane distance recomputed from the ego-relative construction poses
+            se, sg = case["ests"][i], case["gts"][j]
+            d = geom.plane_distance_ref((se["x"], se["y"], se.get("yaw", 0.0), se["size"][0], se["size"][1]), (sg["x"], sg["y"], sg.get("yaw", 0.0), sg["size"][0], sg["size"][1]))
+            if d is None or abs(d - r) < 1e-6:
+                acc.skip("boundary:radius")
+            elif not d < r:
+                bad("radius", "paired objects have a plane distance of %.6f (frame %s), radius for the ground truth's label is %s" % (d, M.frame_of(case, sg), r))
     if not fpv:
         if len(R) != len(ests0) or sorted(ei) != list(range(len(ests0))):
             bad("estimate-lost", "outside FP validation every estimate must appear in exactly one result")
